@@ -44,7 +44,7 @@ def overlay():
         open(os.path.join(target, "doc.go"), "w").write("package %s\n" % pk.removesuffix("_test"))
     for d in demos:
         ov["Replace"][os.path.join(target, os.path.basename(d))] = d
-    path = os.path.join(tempfile.gettempdir(), "seed_ov_%s_%s.json" % (os.path.basename(wt), X))
+    path = os.path.join(tempfile.gettempdir(), "seedov_%s_%s.json" % (os.path.basename(wt), X))
     json.dump(ov, open(path, "w"))
     return path, pkgpath, target
 def demo():
